@@ -10,6 +10,7 @@ import (
 	"go/token"
 	"go/types"
 	"math"
+	"os"
 	"sort"
 	"strings"
 
@@ -149,7 +150,8 @@ type c19Plan struct {
 	f    *c19Form
 }
 
-const c19GhostShift = 24
+// predicate bits occupy [0,16) (solve() admits at most 15), the ghost state of a rule the 16 bits above
+const c19GhostShift = 16
 
 // ---- supergraph
 
@@ -165,7 +167,20 @@ type c19SNode struct {
 	retLhs  []ast.Expr
 	retFr   *c19Frame
 	retStmt *ast.ReturnStmt
+	// "bind" nodes: pointer parameters of the inlined callee that are bound by value (c19BindByValue)
+	ptrBinds []c19PtrBind
 }
+
+// c19PtrBind: a pointer parameter that the callee re-assigns, bound to a plain variable of the caller by value.
+type c19PtrBind struct {
+	param types.Object
+	arg   ast.Expr // in the caller's frame
+}
+
+// c19BindByValue (set by a rule for the duration of its run): pointer parameter types that may be bound by
+// value although the callee assigns the parameter. The predicates do not follow the aliasing this creates, the
+// rule that sets the hook does (the pager's pending-line typestate tracks which variable holds which line).
+var c19BindByValue func(t types.Type) bool
 
 func (sn *c19SNode) pos() token.Pos {
 	switch {
@@ -440,6 +455,10 @@ func (fl *c19Flow) prepareInline(fr *c19Frame, call *ast.CallExpr) (*c19Frame, [
 					switch {
 					case isPath && noIndex(p) && !assignsRoot(po):
 						sub.alias[po] = p
+					case isPtr && isPath && len(p.path) == 0 && a == unparen(arg) && c19BindByValue != nil && c19BindByValue(po.Type()):
+						sub.args[po] = arg
+						sub.ptrBinds = append(sub.ptrBinds, c19PtrBind{po, arg})
+						binds = append(binds, &c19Effect{kind: 'a', lhs: c19Path{root: po}, lhsID: fmt.Sprintf("%p", po), rhsBool: -1})
 					case isPtr || assignsRoot(po):
 						ok = false // writes through it could not be attributed
 						return
@@ -504,7 +523,7 @@ func (fl *c19Flow) buildFrame(fr *c19Frame) (*c19SBlk, []*c19SBlk) {
 					if len(lhs) > 0 {
 						bindN = call
 					}
-					cur.nodes = append(cur.nodes, &c19SNode{n: bindN, fr: fr, pseudo: "bind", effs: binds, done: true, loc: Loc{b, i}, skip: call})
+					cur.nodes = append(cur.nodes, &c19SNode{n: bindN, fr: fr, pseudo: "bind", effs: binds, done: true, loc: Loc{b, i}, skip: call, ptrBinds: sub.ptrBinds})
 					centry, cexits := fl.buildFrame(sub)
 					cur.succs = []*c19SBlk{centry}
 					cont := fl.newBlk(fr)
@@ -1581,6 +1600,11 @@ func c19RawEffects(c *Ctx, info *types.Info, n ast.Node, errp *string, where str
 		case *ast.AssignStmt:
 			if len(s.Lhs) == 1 && len(s.Rhs) == 1 {
 				assigns = append(assigns, one(s.Lhs[0], s.Rhs[0], s.Tok))
+			} else if len(s.Lhs) == len(s.Rhs) && c19ParallelIndependent(info, s) {
+				// a, b = x, y where no right-hand side reads what another position writes: two assignments
+				for i, l := range s.Lhs {
+					assigns = append(assigns, one(l, s.Rhs[i], s.Tok))
+				}
 			} else {
 				for _, l := range s.Lhs {
 					assigns = append(assigns, one(l, nil, s.Tok))
@@ -1628,6 +1652,73 @@ func c19RawEffects(c *Ctx, info *types.Info, n ast.Node, errp *string, where str
 		return true
 	})
 	return append(calls, assigns...)
+}
+
+// c19ParallelIndependent: in the tuple assignment no right-hand side reads a location that another position
+// writes (and no two positions write overlapping locations), so that it can be read as a sequence.
+func c19ParallelIndependent(info *types.Info, s *ast.AssignStmt) bool {
+	var lhs []c19Path
+	for _, l := range s.Lhs {
+		if id, ok := unparen(l).(*ast.Ident); ok && id.Name == "_" {
+			lhs = append(lhs, c19Path{})
+			continue
+		}
+		p, ok := c19Chain(info, l)
+		if !ok {
+			return false
+		}
+		lhs = append(lhs, p)
+	}
+	overlap := func(a, b c19Path) bool {
+		if a.root == nil || b.root == nil || a.root != b.root {
+			return false
+		}
+		for k := 0; k < len(a.path) && k < len(b.path); k++ {
+			if a.path[k] != b.path[k] {
+				return false
+			}
+		}
+		return true
+	}
+	for i := range s.Lhs {
+		for j := range s.Lhs {
+			if i == j {
+				continue
+			}
+			if overlap(lhs[i], lhs[j]) {
+				return false
+			}
+			for _, rp := range c19ReadPaths(info, s.Rhs[j]) {
+				if overlap(lhs[i], rp) {
+					return false
+				}
+			}
+			// index operands and the like inside another left-hand side
+			for _, rp := range c19ReadPaths(info, s.Lhs[j]) {
+				if overlap(lhs[i], rp) {
+					return false
+				}
+			}
+		}
+	}
+	// calls on the right-hand side may write anything the left-hand sides name
+	hasCall := false
+	for _, r := range s.Rhs {
+		inspectNoLit(r, func(n ast.Node) bool {
+			if ce, ok := n.(*ast.CallExpr); ok {
+				if _, conv := c19IsConversion(info, ce); !conv {
+					if id, isID := unparen(ce.Fun).(*ast.Ident); isID {
+						if _, bi := info.Uses[id].(*types.Builtin); bi {
+							return true
+						}
+					}
+					hasCall = true
+				}
+			}
+			return true
+		})
+	}
+	return !hasCall
 }
 
 // effectsOf: the writes of one supergraph node, translated in the node's alias context.
@@ -1983,6 +2074,11 @@ func (fl *c19Flow) solve() {
 		}
 		if len(keys) > maxBits {
 			fl.err = fmt.Sprintf("%d predicates relevant in %s (limit %d)", len(keys), fl.fi.Name, maxBits)
+			if os.Getenv("C19_DEBUG") != "" {
+				for _, k := range keys {
+					fl.err += "\n    " + fl.all[k].String()
+				}
+			}
 			return
 		}
 		sort.Slice(keys, func(i, j int) bool {
